@@ -573,6 +573,7 @@ pub fn cmd_gen(args: &[String]) -> i32 {
             let n = if tier == "thorough" { 3000 } else { 50 };
             let mut rng = StdRng::seed_from_u64(seed ^ 0xc18);
             crate::sbridge::both_all(&mut rng, &mut sink, n);
+            crate::sbridge::both_borrowed(&mut rng, &mut sink, n);
         }
         #[cfg(feature = "std")]
         "extra" => crate::extra::gen_extra(&mut sink, seed),
